@@ -154,6 +154,7 @@ type Outcome struct {
 	PanicVal  string
 	PanicSite string // first genqlient function on the panicking stack
 	TimedOut  bool
+	ImportLog [][2]string // (package path, alias) in the order addImportFor chose them (verif hook)
 }
 
 var siteRe = regexp.MustCompile(`github\.com/Khan/genqlient/generate\.(?:\(\*?\w+\)\.)?(\w+)`)
@@ -213,6 +214,7 @@ func RunConfig(cfg *generate.Config) *Outcome {
 			ch <- o
 		}()
 		o.Files, o.Err = generate.Generate(cfg)
+		o.ImportLog = generate.VerifTakeImportLog()
 	}()
 	select {
 	case o := <-ch:
